@@ -132,6 +132,14 @@ theorem stepLine_nodup {inc : Inc} (hi : KeepsNodup inc) (cur : String) (s r : S
       | ok st2 =>
         simp only [hn2] at h; cases h
         exact hi name st1 st2 hn2 (by simpa [flush_macros hf] using hn)
+  | rejected e =>
+    simp only [stepLine] at h
+    cases hf : flush st active <;> simp [hf] at h
+  | null =>
+    simp only [stepLine] at h
+    cases hf : flush st active with
+    | error e => simp [hf] at h
+    | ok st1 => simp only [hf] at h; cases h; simpa [flush_macros hf] using hn
 
 theorem foldLines_nodup {inc : Inc} (hi : KeepsNodup inc) (cur : String) (s r : State × List PTok)
     (ls : List Line) (h : foldLines inc cur s ls = .ok r) (hn : (names s.1.macros).Nodup) :
